@@ -33,7 +33,7 @@ RULE = ('one evaluation = one seeded run: (hist) a single-client history of 20-2
         'pinned release and across two fresh interpreters with different PYTHONHASHSEED; (pairs) numerically equal int/float keys '
         'must map to one shard; non-trivial = at least 10 calls / at least one key compared; distinct = SHA-256 of the case')
 ASSUMPTIONS = ['histories use at most one member of each numerically-equal int/float pair (their split routing is known finding F11 and is probed separately)']
-PROBES = ('cull_expired', 'reopen', 'unpickled_handle', 'routing_keys_compared', 'xproc_runs', 'two_handles', 'reopen_with_new_limit')
+PROBES = ('cull_expired', 'reopen', 'unpickled_handle', 'routing_keys_compared', 'xproc_runs', 'two_handles', 'reopen_with_new_limit', 'setting_changed')
 TECHNIQUE = 'deterministic simulation (virtual clock, simulated processes) + per-shard model-based checking; routing compared with a recorded table and across fresh interpreters with different hash seeds'
 LEVEL_TEXT = ('seeded exploration of call histories against per-shard reference models under the simulator, plus direct comparison '
               'of the routing function with a recorded table and across interpreters (the only nondeterminism the routing can depend on '
@@ -111,6 +111,12 @@ def gen_case(seed, tier):
             op['proc'] = rng.randrange(nproc)
             if op['how'] == 'open' and rng.random() < 0.3:
                 op['new_limit'] = rng.choice((2 ** 20, 2 ** 24, 3 * 2 ** 20))      # a restart with another configured limit
+    if rng.random() < 0.4:
+        # a setting is changed through one handle (reset(key, value): every shard, and stored) and the other handles reload
+        # it the documented way (reset(key)): afterwards every shard of every handle goes by the new value
+        for _ in range(rng.choice((1, 2))):
+            prog.insert(rng.randint(0, len(prog)), {'op': 'resetting', 'key': 'cull_limit', 'value': rng.choice((0, 1, 3, 10)),
+                                                    'proc': rng.randrange(nproc)})
     if rng.random() < 0.5:
         prog.append({'op': 'checkall'})
     cfg = {'kind': 'hist', 'settings': settings, 'shards': shards, 'nproc': nproc,
@@ -181,11 +187,32 @@ def run_hist(case):
                 else:
                     handles[hi].close()
                     handles[hi] = dc.FanoutCache(path, shards=shards)
-                for sh in handles[hi]._shards:
-                    if sh.size_limit != total_limit / shards:
-                        violations.append({'rule': 'C13/size-limit-not-divided', 'sig': 'reopen',
-                                           'detail': 'after reopen shard size_limit %r, expected %r' % (sh.size_limit, total_limit / shards)})
+                for hn, h in enumerate(handles):
+                    for sh in h._shards:
+                        if sh.size_limit != total_limit / shards and not violations:
+                            violations.append({'rule': 'C13/size-limit-not-divided', 'sig': 'reopen' if h is handles[hi] else 'reload',
+                                               'detail': 'after the reopen of handle %d: a shard of handle %d has size_limit %r, expected %r'
+                                                         % (hi, hn, sh.size_limit, total_limit / shards)})
                 probes['reopen'] = probes.get('reopen', 0) + 1
+                continue
+            if name == 'resetting':
+                hi = op.get('proc', 0) % len(handles)
+                got = handles[hi].reset(op['key'], op['value'])
+                reloaded = [other.reset(op['key']) for other in handles if other is not handles[hi]]
+                for m in models:
+                    setattr(m, op['key'], op['value'])
+                if got != op['value'] or any(r != op['value'] for r in reloaded):
+                    violations.append({'rule': 'C13/setting-not-applied', 'sig': op['key'],
+                                       'detail': 'reset(%r, %r) returned %r, reloads returned %r' % (op['key'], op['value'], got, reloaded)})
+                for hn, h in enumerate(handles):
+                    stale = [getattr(sh, op['key']) for sh in h._shards if getattr(sh, op['key']) != op['value']]
+                    if stale and not violations:
+                        violations.append({'rule': 'C13/setting-not-applied', 'sig': '%s:%s' % (op['key'], 'set' if hn == hi else 'reload'),
+                                           'detail': 'after reset(%r, %r) through handle %d and a reload by the others, %d shard(s) of '
+                                                     'handle %d still go by %r' % (op['key'], op['value'], hi, len(stale), hn, stale[0])})
+                probes['setting_changed'] = probes.get('setting_changed', 0) + 1
+                if violations:
+                    break
                 continue
             pi = op.get('proc', 0) % len(handles)
             sim.harness_proc.pid = 1 + pi
